@@ -55,8 +55,8 @@ def gen_spec(rng, nsurf=None, allow=None, finite_object=None, mirrors=None, dece
             s['norm_x'] = rng.choice([1.0, 1.0]) * rng.uniform(30, 60)
             s['norm_y'] = rng.uniform(30, 60)
         # medium after the surface
-        if use_mirror and i > 0 and rng.random() < 0.3 and not in_glass:
-            s['material'] = 'mirror'
+        if use_mirror and i > 0 and rng.random() < 0.3 and (not in_glass or rng.random() < 0.4):
+            s['material'] = 'mirror'       # (inside glass: a second-surface / Mangin mirror)
         elif in_glass:
             s['material'] = 'air'
             in_glass = False
@@ -134,7 +134,10 @@ def build(spec):
     from optiland.physical_apertures import RadialAperture
     from optiland.coatings import SimpleCoating
     o = Optic()
-    o.add_surface(index=0, radius=np.inf, thickness=spec['object_thickness'])
+    okw = {}
+    if spec.get('object_material'):      # ['ideal', n, k]: object-space medium (C09)
+        okw['material'] = IdealMaterial(n=spec['object_material'][1], k=spec['object_material'][2])
+    o.add_surface(index=0, radius=np.inf, thickness=spec['object_thickness'], **okw)
     for i, s in enumerate(spec['surfaces']):
         kw = {}
         for key in ('radius', 'conic', 'coefficients', 'norm_x', 'norm_y', 'dx', 'dy', 'rx', 'ry', 'tol', 'max_iter'):
@@ -232,3 +235,81 @@ def coq_surf(s, fh):
     return (f'(mkSurf (O:=FOps) {fh(s["x"])} {fh(s["y"])} {fh(s["z"])} {fh(s["rx"])} {fh(s["ry"])} {fh(s["rz"])} '
             f'{coq_shape(s["shape"], fh)} {fh(s["n1"])} {fh(s["n2"])} {fh(s["k1"])} '
             f'{"true" if s["refl"] else "false"} {ap} {co})')
+
+
+# ---------------- edit histories through the public API ----------------
+def random_edits(optic, spec, rng, n=None, kinds=None):
+    """apply 1-3 random prescription edits through Optic's public setters; returns the list of edits
+    [(kind, surface, value)] so that a replay can redo them.  Only surfaces 1..N (not object/image)."""
+    import numpy as np
+    kinds = kinds or ['index', 'radius', 'thickness', 'conic']
+    ns = len(spec['surfaces'])
+    edits = []
+    for _ in range(n or rng.choice([1, 2, 3])):
+        k = rng.choice(kinds)
+        si = rng.randrange(1, ns + 1)
+        s = optic.surface_group.surfaces[si]
+        if k == 'index':
+            cand = [i for i in range(1, ns + 1) if not optic.surface_group.surfaces[i].is_reflective
+                    and float(np.ravel(optic.surface_group.surfaces[i].material_post.n(0.55))[0]) > 1.01]
+            if not cand:
+                continue
+            si = rng.choice(cand)
+            v = rng.uniform(1.4, 1.9)
+            optic.set_index(v, si)
+        elif k == 'radius':
+            v = rng.uniform(30.0, 200.0) * rng.choice([-1, 1])
+            optic.set_radius(v, si)
+        elif k == 'thickness':
+            if si >= ns:
+                continue
+            old = float(np.ravel(optic.surface_group.get_thickness(si))[0])
+            v = old * rng.uniform(0.6, 1.5)
+            optic.set_thickness(v, si)
+        elif k == 'conic':
+            if not hasattr(s.geometry, 'k'):
+                continue
+            v = rng.uniform(-1.5, 0.5)
+            optic.set_conic(v, si)
+        edits.append((k, si, v))
+    return edits
+
+
+def apply_edits(optic, edits):
+    for k, si, v in edits:
+        getattr(optic, 'set_' + k)(v, si)
+
+
+# ---------------- corner-case corpus (runs first in every check that traces lenses) ----------------
+def corpus():
+    inf = float('inf')
+    base = {'aperture': ['EPD', 10.0], 'field_type': 'angle', 'fields': [[0.0, 0.0, 0.0, 0.0], [5.0, 0.0, 0.0, 0.0]],
+            'wavelengths': [[0.5876, True]], 'telecentric': False, 'object_thickness': inf}
+    out = []
+    # fast plano-convex lens, flat side first: marginal rays exceed the critical angle at the curved glass->air surface
+    out.append(dict(base, name='tir-planoconvex', aperture=['EPD', 19.0], surfaces=[
+        {'type': 'standard', 'radius': inf, 'thickness': 6.0, 'material': ['glass', 'N-BK7', 'schott'], 'is_stop': True},
+        {'type': 'standard', 'radius': -10.0, 'thickness': 20.0, 'material': 'air'}]))
+    # second-surface (Mangin) mirror: reflection inside glass
+    out.append(dict(base, name='mangin', surfaces=[
+        {'type': 'standard', 'radius': -120.0, 'thickness': 5.0, 'material': ['ideal', 1.6, 0.0], 'is_stop': True},
+        {'type': 'standard', 'radius': -150.0, 'thickness': -5.0, 'material': 'mirror'},
+        {'type': 'standard', 'radius': -120.0, 'thickness': -60.0, 'material': 'air'}]))
+    # image inside glass (cover slip / immersion)
+    out.append(dict(base, name='image-in-glass', surfaces=[
+        {'type': 'standard', 'radius': 40.0, 'thickness': 5.0, 'material': ['glass', 'N-SF5', 'schott'], 'is_stop': True},
+        {'type': 'standard', 'radius': -60.0, 'thickness': 30.0, 'material': 'air'},
+        {'type': 'standard', 'radius': inf, 'thickness': 3.0, 'material': ['glass', 'N-BK7', 'schott']}]))
+    # paraboloid mirror, conic -1 (axis-parallel rays: a == 0 branch of the conic intersection)
+    out.append(dict(base, name='paraboloid', surfaces=[
+        {'type': 'standard', 'radius': -200.0, 'conic': -1.0, 'thickness': -100.0, 'material': 'mirror', 'is_stop': True}]))
+    # even asphere with positive terms + aperture with obscuration, finite object with height fields, stop in the middle
+    out.append(dict(base, name='asphere-finite', object_thickness=120.0, field_type='object_height',
+                    fields=[[0.0, 0.0, 0.0, 0.0], [6.0, 0.0, 0.0, 0.0]], surfaces=[
+        {'type': 'even_asphere', 'radius': 50.0, 'conic': 0.0, 'coefficients': [2e-5, 3e-8], 'thickness': 6.0,
+         'material': ['ideal', 1.7, 1e-6], 'aperture': [7.0, 1.0]},
+        {'type': 'standard', 'radius': -80.0, 'thickness': 4.0, 'material': 'air'},
+        {'type': 'standard', 'radius': inf, 'thickness': 10.0, 'material': 'air', 'is_stop': True},
+        {'type': 'standard', 'radius': 60.0, 'thickness': 5.0, 'material': ['glass', 'N-SF11', 'schott'], 'coating': [0.9, 0.05]},
+        {'type': 'standard', 'radius': -90.0, 'thickness': 70.0, 'material': 'air'}]))
+    return out
